@@ -24,9 +24,8 @@ contract("monkeytype.typing:make_typed_dict", props=["C04", "C06", "C07"], theor
                               " ite(optional_fields is None or len(optional_fields) == 0, EMPTY_DICT_, optional_fields))"},
          note="builds nested mypy_extensions.TypedDict classes: the TD_ constructor of T-TYPES is its specification")
 
-contract("monkeytype.typing:field_annotations", props=["C04", "C06", "C07", "C11"], theories=TH, mode="assumed",
-         params={"typed_dict": "Ty"}, result="raw",
-         note="reads __annotations__ of the nested TypedDicts: modelled by td_req / td_opt (theory handler)")
+# monkeytype.typing:field_annotations reads __annotations__ of the two nested TypedDicts make_typed_dict builds: it is
+# modelled by the theory observers td_req / td_opt (theories/types.py, assumed; validated by the bounded tier).
 
 contract("monkeytype.typing:is_anonymous_typed_dict", props=["C04", "C06", "C07"], theories=TH, mode="assumed",
          params={"typ": "Ty"}, result="bool",
@@ -36,14 +35,15 @@ contract("monkeytype.typing:is_anonymous_typed_dict", props=["C04", "C06", "C07"
 _SUP = "forall(types, lambda t: forall_val(lambda v: implies(mem(v, t), mem(v, result))))"
 contract("monkeytype.typing:shrink_typed_dict_types", props=["C04", "C05", "C06"], theories=TH, mode="assumed",
          params={"typed_dicts": "Seq[Ty]", "max_typed_dict_size": "Opt[int]"}, result="Ty", scc="shrink", decreases=["mdepth(typed_dicts)", "0"],
-         requires={"all-td": "forall(typed_dicts, lambda t: kind(t) is K_TD)", "nonempty": "len(typed_dicts) >= 1"},
-         ensures={"post:super": "forall(typed_dicts, lambda t: forall_val(lambda v: implies(mem(v, t), mem(v, result))))"},
+         requires={"all-td": "forall(typed_dicts, lambda t: kind(t) is K_TD and wf_rw(t))", "nonempty": "len(typed_dicts) >= 1"},
+         ensures={"post:super": "forall(typed_dicts, lambda t: forall_val(lambda v: implies(mem(v, t), mem(v, result))))",
+                  "post:wf": "wf_rw(result) and result is not ELLIPSIS_"},
          note="bounded in this round (runtime/props/c04.py); invariant sketch in DESIGN Appendix A")
 
 contract("monkeytype.typing:shrink_types", props=["C04", "C05", "C06", "C01"], theories=TH,
          params={"types": "Seq[Ty]", "max_typed_dict_size": "Opt[int]"}, result="Ty", scc="shrink", decreases=["mdepth(types)", "1"],
-         requires={"wf": "forall(types, lambda t: wf_ty(t))"},
-         ensures={"post:super": _SUP,
+         requires={"wf": "forall(types, lambda t: wf_rw(t) and t is not ELLIPSIS_)"},
+         ensures={"post:super": _SUP, "post:wf": "wf_rw(result) and result is not ELLIPSIS_",
                   "post:empty": "implies(len(types) == 0, result is ANY)"})
 
 _KOK = "(max_typed_dict_size is None or max_typed_dict_size >= 0)"
@@ -53,9 +53,9 @@ contract("monkeytype.typing:get_dict_type", props=["C04", "C05", "C06"], theorie
          hints={"td-keys": "implies(kind(result) is K_TD, forall(dct, lambda k: has(td_req(result), k) and is_strval(k)))",
                 "td-req": "implies(kind(result) is K_TD, forall(td_req(result), lambda k: has(dct, k) and mem(lookup(dct, k), lookup(td_req(result), k))))",
                 "td-opt": "implies(kind(result) is K_TD, len(td_opt(result)) == 0)"},
-         ensures={"post:mem": "mem(dct, result)", "post:wf": "wf_ty(result)"})
+         ensures={"post:mem": "mem(dct, result)", "post:wf": "wf_rw(result) and result is not ELLIPSIS_"})
 
 contract("monkeytype.typing:get_type", props=["C04", "C05", "C06", "C02", "C03", "C01"], theories=TH,
          params={"obj": "Val", "max_typed_dict_size": "Opt[int]"}, result="Ty", scc="infer", decreases=["size(obj)", "1"],
          requires={"val-wf": "wf_val(obj)"},
-         ensures={"post:mem": "mem(obj, result)", "post:wf": "wf_ty(result)"})
+         ensures={"post:mem": "mem(obj, result)", "post:wf": "wf_rw(result) and result is not ELLIPSIS_"})
